@@ -44,7 +44,7 @@ def gen_history(rng, nops):
         if r < 0.35 or not ops:
             sid = rng.choice(ANY)
             if sid.startswith("caller") or sid.startswith("param"):
-                if sid.startswith("param"):
+                if sid.startswith("param") and sid != "param_caller":
                     add(["compile", sid, True, rng.choice(["default", "fast"]), True], ("unbound", sid))
                 continue
             tc = rng.random() < 0.85
@@ -52,7 +52,10 @@ def gen_history(rng, nops):
         elif r < 0.42:
             i = pick(lambda k: k[0] == "qf" and k[1] in ("ident", "inc"))
             if i is not None:
-                add(["defs", "caller_g", i], ("qf", "caller_g", True))
+                if rng.random() < 0.4:
+                    add(["defs", "param_caller", i], ("unbound", "param"))
+                else:
+                    add(["defs", "caller_g", i], ("qf", "caller_g", True))
             else:
                 i = pick(lambda k: k[0] == "qf" and k[1] in ("and", "and_other_body"))
                 if i is not None:
@@ -160,6 +163,7 @@ CORPUS = [
     [["compile", "shadow_inspect", True, "default", True], ["compile", "tuple", True, "default", True], ["encode_decode", 1]],
     [["compile", "and", True, "default", True], ["compile", "and_other_body", True, "default", True], ["defs", "caller_f", 0], ["defs", "caller_f", 1], ["truth_table", 2]],
     [["compile", "ident", True, "default", True], ["defs", "caller_g", 0], ["compile", "inc", True, "default", True], ["defs", "caller_g", 2], ["defs", "caller_g", 0]],
+    [["compile", "inc", True, "default", True], ["defs", "param_caller", 0], ["bind", 1, {"c": 1}], ["bind", 1, {"c": 2}], ["bind", 1, {"c": 1}], ["truth_table", 3]],
     [["compile", "param_all", True, "default", True], ["bind", 0, {"c": [True, True, True]}], ["bind", 0, {"c": [True, False, True]}], ["bind", 0, {"c": [True, True, True]}], ["truth_table", 2]],
     [["compile", "param_sum", True, "default", True], ["bind", 0, {"c": [1, 2]}], ["bind", 0, {"c": [0, 0]}], ["truth_table", 2], ["bind", 0, {"c": [3, 3]}]],
     [["compile", "param_any", True, "fast", True], ["bind", 0, {"c": [False, False]}], ["bind", 0, {"c": [True, False]}], ["export", 2, "qasm", "circuit"]],
